@@ -1,5 +1,5 @@
 (* C08 — comments, whitespace and letter case never change what is parsed (partial). *)
-From Secs Require Import Ast Fill Msg Lexer Parser SmlNumbers SmlProofs LexProofs ParseProofs LayoutProofs OffsetProofs.
+From Secs Require Import Ast Fill Msg Lexer Parser SmlNumbers SmlProofs LexProofs ParseProofs LayoutProofs OffsetProofs LexPrinted CaseProofs.
 Open Scope Z_scope.
 
 (* any amount and kind of white space (blanks, tabs, CR, LF) in front of the
@@ -67,8 +67,50 @@ Theorem C08_diagnostics_follow_tokens : forall g, g zero_tok = 0 -> forall float
 Proof. exact parse_loop_R. Qed.
 Print Assumptions C08_diagnostics_follow_tokens.
 
+(* letter case of keywords.  [m] is what the matcher takes from the input, [m']
+   the same letters in any other case, [r] whatever follows: the lexer emits the
+   same token (its text is the upper-cased match) and goes on at the same place *)
+Theorem C08_keyword_case : forall alnum m m' r off, to_upper m' = to_upper m ->
+  match_ident (m ++ r) = Some (m, r) -> is_keyword (to_upper m) = true ->
+  lex_step1 alnum LText (m' ++ r) off = lex_step1 alnum LText (m ++ r) off.
+Proof. exact keyword_case. Qed.
+Print Assumptions C08_keyword_case.
+
+Theorem C08_stream_function_case : forall alnum m m' r off, to_upper m' = to_upper m -> match_sf (m ++ r) = Some (m, r) ->
+  starts_with slashes (m ++ r) = false -> starts_with slashes (m' ++ r) = false ->
+  lex_step1 alnum LHeader (m' ++ r) off = lex_step1 alnum LHeader (m ++ r) off.
+Proof. exact sf_case. Qed.
+Print Assumptions C08_stream_function_case.
+
+Theorem C08_wait_bit_case : forall alnum m m' r off, to_upper m' = to_upper m -> match_wbit (m ++ r) = Some (m, r) ->
+  starts_with slashes (m ++ r) = false -> starts_with slashes (m' ++ r) = false ->
+  match_sf (m ++ r) = None -> match_sf (m' ++ r) = None ->
+  lex_step1 alnum LHeader (m' ++ r) off = lex_step1 alnum LHeader (m ++ r) off.
+Proof. exact wbit_case. Qed.
+Print Assumptions C08_wait_bit_case.
+
+Theorem C08_direction_case : forall alnum m m' r off, to_upper m' = to_upper m -> match_dir (m ++ r) = Some (m, r) ->
+  starts_with slashes (m ++ r) = false -> starts_with slashes (m' ++ r) = false ->
+  match_sf (m ++ r) = None -> match_sf (m' ++ r) = None -> match_wbit (m ++ r) = None -> match_wbit (m' ++ r) = None ->
+  lex_step1 alnum LHeader (m' ++ r) off = lex_step1 alnum LHeader (m ++ r) off.
+Proof. exact dir_case. Qed.
+Print Assumptions C08_direction_case.
+
+(* the premises hold: "boolean" / "BOOLEAN", "s12f3" / "S12F3", "[w]" / "[W]", "h<->e" / "H<->E" *)
+Example C08_case_premises : forall alnum r off,
+  lex_step1 alnum LText (B"boolean"%string ++ x5b :: r) off = LEmit (mk TItemType (B"BOOLEAN"%string) off) LText (x5b :: r) (off + 7) /\
+  lex_step1 alnum LHeader (B"s12f3"%string ++ x20 :: r) off = LEmit (mk TStreamFunction (B"S12F3"%string) off) LHeader (x20 :: r) (off + 5) /\
+  lex_step1 alnum LHeader (B"[w]"%string ++ x20 :: r) off = LEmit (mk TWaitBit (B"[W]"%string) off) LHeader (x20 :: r) (off + 3) /\
+  lex_step1 alnum LHeader (B"h<->e"%string ++ x20 :: r) off = LEmit (mk TDirection (B"H<->E"%string) off) LHeader (x20 :: r) (off + 5).
+Proof.
+  intros alnum r off.
+  destruct (keyword_case_example alnum r off) as [A1 A2]. destruct (sf_case_example alnum r off) as [B1 B2].
+  destruct (wbit_case_example alnum r off) as [C1 C2]. destruct (dir_case_example alnum r off) as [D1 D2].
+  repeat split; congruence.
+Qed.
+
 (* C08_gap_partial: gaps in front of the NEXT token are covered by
    C08_whitespace and C08_comment; that a gap after a token does not change
-   that token (locality of the seven prefix matchers under what follows) and the
-   letter case of keywords are decided by the metamorphic pairs of suite C08 on
-   the library and by the token-level correspondence with the lexer model. *)
+   that token (locality of the seven prefix matchers under what follows) is
+   decided by the metamorphic pairs of suite C08 on the library and by the
+   token-level correspondence with the lexer model (proved for printed texts: C04). *)
